@@ -76,6 +76,16 @@ HostileBigOK(e) ==
   /\ (e.gen = "nest" /\ e.complete /\ e.n <= MinDepth => Len(e.res) = 2 /\ e.res[1].t = "arr" /\ e.res[2].t = "eof")
   /\ (e.gen = "nest" /\ ~e.complete => Len(e.res) = 1 /\ e.res[1].t = "error")   \* end of stream inside an array is an error
 
+(* C04 on a real socket: a client that stopped reading in the middle of a     *)
+(* large bulk reply and went on later.  Either the bulk arrived completely   *)
+(* (declared length, CR LF) and the next reply follows, or the server gave   *)
+(* the client up and the stream simply ends; bytes of another reply after a  *)
+(* torn frame are what C04 excludes.                                         *)
+BigReadOK(e) ==
+  \/ /\ e.declared >= 0 /\ e.payload = e.declared /\ e.term = CRLF
+     /\ e.rest = Enc(Str(<<80, 79, 78, 71>>))
+  \/ /\ e.eof /\ e.rest = <<>> /\ e.term = <<>>
+
 (* C02: a stream of canonical encodings delivered in the logged chunks.      *)
 RECURSIVE Sum(_, _)
 Sum(c, k) == IF k > Len(c) THEN 0 ELSE c[k] + Sum(c, k + 1)
@@ -97,6 +107,7 @@ Check(e) == CASE e.ev = "rt"      -> RoundTripOK(e)
               [] e.ev = "float"   -> FloatOK(e)
               [] e.ev = "hostile" -> HostileOK(e)
               [] e.ev = "hostilebig" -> HostileBigOK(e)
+              [] e.ev = "bigread" -> BigReadOK(e)
               [] OTHER            -> FALSE
 
 Init == l = 1
